@@ -18,7 +18,7 @@ func TestMain(m *testing.M) { os.Exit(ev.Main(ID, m)) }
 
 func TestReplay(t *testing.T) { prop.Replay(t, nil) }
 
-var ownerKinds = []string{"table", "column", "row", "cell", "hdrcell"}
+var ownerKinds = []string{"table", "column", "row", "cell", "hdrcell", "hdrrow"}
 
 func caseGen() *rapid.Generator[Case] {
 	max := 16
@@ -30,9 +30,22 @@ func caseGen() *rapid.Generator[Case] {
 		c := Case{Creator: rapid.SampledFrom([]string{"core", "core", "csv", "texttable", "markdown"}).Draw(t, "creator")}
 		n := rapid.IntRange(2, max).Draw(t, "n")
 		for i := 0; i < n; i++ {
-			k := rapid.SampledFrom([]string{"op", "op", "op", "op", "reg", "reg", "reg", "reg", "render", "render", "seedcell", "dense"}).Draw(t, "step")
+			k := rapid.SampledFrom([]string{"op", "op", "op", "op", "reg", "reg", "reg", "reg", "render", "render", "seedcell", "dense", "hdrcapture"}).Draw(t, "step")
 			st := Step{K: k}
 			switch k {
+			case "hdrcapture":
+				// an add-time row callback on the table is handed the header row (if the library does that); the row it
+				// was handed then becomes the owner of render-time callbacks of its own
+				c.Steps = append(c.Steps, Step{K: "reg", Owner: "table", When: 0, Target: 2})
+				hop := gen.Op{K: "hdr"}
+				for j, n := 0, rapid.IntRange(1, 3).Draw(t, "hcells"); j < n; j++ {
+					hop.Items = append(hop.Items, item.Draw(t, "item"))
+				}
+				c.Steps = append(c.Steps, Step{K: "op", Op: &hop})
+				for j, n := 0, rapid.IntRange(1, 3).Draw(t, "hregs"); j < n; j++ {
+					c.Steps = append(c.Steps, Step{K: "reg", Owner: "hdrrow", When: rapid.IntRange(0, 3).Draw(t, "when"), Target: rapid.IntRange(0, 2).Draw(t, "target"), Err: rapid.IntRange(0, 3).Draw(t, "err") == 0})
+				}
+				continue
 			case "op":
 				op := gen.Op{K: rapid.SampledFrom([]string{"hdr", "rowitems", "rowitems", "rowitems", "sep", "appendnew", "newrow", "newrowsized", "rowadd", "rowadd", "rowadd", "addrow", "addrow", "zerorow"}).Draw(t, "kind")}
 				switch op.K {
